@@ -7,19 +7,24 @@
 (* each step must be the one the model computes (Oracle_Trace, MODEL clauses).  *)
 EXTENDS OracleSM_MC, Json
 CONSTANT D
-VARIABLES hist, nmsg
-svars == <<vars, hist, nmsg>>
+VARIABLES hist, nmsg, np
+svars == <<vars, hist, nmsg, np>>
 MaxMsgs == 3   \* messages per block in generated behaviours (keeps blocks short so that many rounds close)
 \* the state the real chain is in right after an end-block rotated onto the first cycle-list query
 SimInit ==
   /\ h = 1 /\ reps = {} /\ idx = 0 /\ aggcount = <<>> /\ aggh = <<>> /\ tin = 0 /\ paid = 0 /\ ntips = 0 /\ sinceRot = 0
   /\ qs = {NewRound(CL[1], 1, Zero, WinOf[CL[1]], TRUE, FALSE, WinOf[CL[1]])}
   /\ nextId = 2
-  /\ hist = <<>> /\ nmsg = 0
+  /\ hist = <<>> /\ nmsg = 0 /\ np = 0
+\* reports the model has DISABLED (window closed, nothing scheduled or tipped) are replayed too, at most MaxProbes per
+\* behaviour: the model's table does not change and the real chain must reject them
+MaxProbes == 6
 SimNext ==
-  \/ nmsg < MaxMsgs /\ nmsg' = nmsg + 1 /\ \E q \in AllQ, a \in TipAmts : Tip(q, a) /\ hist' = Append(hist, [op |-> "Tip", q |-> q, amt |-> a])
-  \/ nmsg < MaxMsgs /\ nmsg' = nmsg + 1 /\ \E r \in Reps, q \in AllQ : Submit(r, q) /\ hist' = Append(hist, [op |-> "Submit", q |-> q, who |-> r])
-  \/ EndBlock /\ nmsg' = 0 /\ hist' = Append(hist, [op |-> "End"])
+  \/ np' = np /\ nmsg < MaxMsgs /\ nmsg' = nmsg + 1 /\ \E q \in AllQ, a \in TipAmts : Tip(q, a) /\ hist' = Append(hist, [op |-> "Tip", q |-> q, amt |-> a, en |-> TRUE])
+  \/ np' = np /\ nmsg < MaxMsgs /\ nmsg' = nmsg + 1 /\ \E r \in Reps, q \in AllQ : Submit(r, q) /\ hist' = Append(hist, [op |-> "Submit", q |-> q, who |-> r, en |-> TRUE])
+  \/ np' = np /\ EndBlock /\ nmsg' = 0 /\ hist' = Append(hist, [op |-> "End"])
+  \/ np < MaxProbes /\ np' = np + 1 /\ nmsg' = nmsg /\ UNCHANGED vars
+     /\ \E r \in Reps, q \in AllQ \ DepQ : ~Admit(qs, q, "normal", h, TRUE) /\ hist' = Append(hist, [op |-> "Submit", q |-> q, who |-> r, en |-> FALSE])
 SimSpec == SimInit /\ [][SimNext]_svars
 Emit == Len(hist) # D \/ PrintT(<<"CASE", ToJson(hist)>>)
 MC_WinSim == [a |-> 2, b |-> 2, c |-> 2, x |-> 2, d |-> 2000]
